@@ -5,7 +5,7 @@ A2 == <<98>>
 A3 == <<99, 195, 169>>
 A4 == <<100, 100>>
 MCAtoms == {A1, A2, A3, A4}
-MCSlots == {<<0, 0>>, <<0, 1>>, <<1, 0>>, <<7, 255>>}
+MCSlots == {<<0, 1>>, <<1, 1>>, <<7, 255>>}
 P == VPid(VAtom(A1), <<0,0,0,1>>, <<0,0,0,2>>, <<0,0,0,3>>, <<>>)
 MCMessages == { <<VTuple(<<SmallInt(1), VAtom(A1)>>)>>,
                 <<VTuple(<<SmallInt(2), VAtom(A2), P>>), VAtom(A1)>>,
